@@ -135,6 +135,11 @@ def check_tree(root: typing.Any, types: list, lctx: typing.Any) -> typing.List[s
     def strop(c: str) -> str:
         return lctx.filter_id_for_target(c, "path")
 
+    # a caller may look at the first entry only (any(...), next(...)) before walking everything: a walk that was abandoned
+    # must not decide what later walks see
+    next(iter(root.get_all_datatypes()), None)
+    next(iter(root.get_all_types()), None)
+    next(iter(root.get_all_namespaces()), None)
     # each type exactly once
     dts = list(root.get_all_datatypes())
     ids = [id(t) for t, _ in dts]
